@@ -141,6 +141,41 @@ theorem body_add_missing_timezones (knows : Str → Bool) (t : Comp) (hw : t.WF)
     Bodies.addMissingP knows t = .ok (addMissing knows t) :=
   Bodies.addMissingP_eq knows t hw hd
 
+/-! ## Clause pass (round 10) -/
+
+/-- "Repeating the call adds nothing", for ANY number of repeated calls: `n + 1` calls leave the
+    calendar that one call leaves. -/
+theorem add_missing_repeat (knows : Str → Bool) (t : Comp) (n : Nat) :
+    Nat.repeat (addMissing knows) (n + 1) t = addMissing knows t := by
+  induction n with
+  | zero => rfl
+  | succ n ih =>
+    show addMissing knows (Nat.repeat (addMissing knows) (n + 1) t) = addMissing knows t
+    rw [ih, add_missing_idem]
+
+/-- "Ids it does not know are still reported missing", after any number of calls (also none):
+    the missing set after `n + 1` calls is the set of missing ids the provider does not know, and
+    such an id is in it after every number of calls. -/
+theorem unknown_stay_missing (knows : Str → Bool) (t : Comp) (n : Nat) :
+    missingTzids (Nat.repeat (addMissing knows) (n + 1) t) = (missingTzids t).filter (fun k => !knows k) ∧
+    ∀ k, k ∈ missingTzids t → knows k = false → ∀ m, k ∈ missingTzids (Nat.repeat (addMissing knows) m t) := by
+  refine ⟨by rw [add_missing_repeat, add_missing_rest], ?_⟩
+  intro k hk hkn m
+  cases m with
+  | zero => exact hk
+  | succ m =>
+    rw [add_missing_repeat, add_missing_rest, List.mem_filter]
+    exact ⟨hk, by simp [hkn]⟩
+
+/-- After any positive number of calls every used id the provider knows has a VTIMEZONE, and it
+    has EXACTLY one if it had none before. -/
+theorem add_missing_repeat_closes (knows : Str → Bool) (t : Comp) (n : Nat) (k : Str)
+    (hu : k ∈ usedTzids t) (hk : knows k = true) :
+    k ∈ tzNames (Nat.repeat (addMissing knows) (n + 1) t) ∧
+    (k ∉ tzNames t → (tzNames (Nat.repeat (addMissing knows) (n + 1) t)).count k = 1) := by
+  rw [add_missing_repeat]
+  exact ⟨add_missing_known_defined knows t k hu hk, add_missing_exactly_one knows t k hu hk⟩
+
 /-! ### non-vacuity -/
 
 section examples
@@ -167,6 +202,7 @@ example : missingTzids cal = ["America/New_York", "Europe/Berlin", "X/Unknown"].
 example : tzNames (addMissing knows cal) =
     ["Asia/Tokyo", "Asia/Tokyo", "Unused/Zone", "America/New_York", "Europe/Berlin"].map String.toList := by decide
 example : missingTzids (addMissing knows cal) = ["X/Unknown".toList] := by decide
+example : missingTzids (Nat.repeat (addMissing knows) 3 cal) = ["X/Unknown".toList] := by decide
 example : Bodies.tzDomainP cal = true := by decide
 example : (Bodies.usedTzidsP cal).toOption.map sortStr = some (usedTzids cal) := by decide
 example : (Bodies.addMissingP knows cal).toOption.map tzNames = some (tzNames (addMissing knows cal)) := by decide
